@@ -100,10 +100,14 @@ fn ops_from_json(v: &Value) -> Vec<Op> {
 /// A remove op with id >= FORGET stands for "the router forgets the address of node id-FORGET while the ring
 /// still lists it" (an address book lagging behind the ring).
 const FORGET: u64 = 1000;
+/// An add op with id >= KNOWN stands for "the routers were constructed with the address of node id-KNOWN while the ring
+/// did not list it yet (the address book of the planned cluster); then the node joins the shared ring and nobody calls
+/// update_peer" (an address book ahead of the ring).
+const KNOWN: u64 = 2000;
 
 fn show_ops(ops: &[Op]) -> String {
     ops.iter()
-        .map(|o| if o.1 >= FORGET { format!("forget-address({})", o.1 - FORGET) } else { format!("{}({})", if o.0 { "add" } else { "remove" }, o.1) })
+        .map(|o| if o.1 >= KNOWN { format!("address-known-at-construction-then-join({})", o.1 - KNOWN) } else if o.1 >= FORGET { format!("forget-address({})", o.1 - FORGET) } else { format!("{}({})", if o.0 { "add" } else { "remove" }, o.1) })
         .collect::<Vec<_>>()
         .join(",")
 }
@@ -598,6 +602,25 @@ fn build_env(ctor: &str, mem: &[u64], c: Cfg, sender: u64) -> Env {
 /// Membership change on the shared ring, followed by the router's dynamic-membership calls
 /// (`update_peer` / `remove_peer`; the state's private router is replaced through `set_router`).
 fn env_change(env: &mut Env, op: Op) {
+    if op.1 >= KNOWN {
+        let x = op.1 - KNOWN;
+        let mut peers = env.peer_ids.clone();
+        if !peers.contains(&x) {
+            peers.push(x);
+            peers.sort();
+        }
+        // both routers are constructed while the ring does not list x ...
+        env.router = mk_router("new", &env.ring, env.sender, &peers, env.cfg);
+        let r = mk_router("new", &env.ring, env.sender, &peers, env.cfg);
+        env.state.set_router(r);
+        env.peer_ids = peers;
+        // ... then x joins the shared ring; no update_peer follows (the address is known already)
+        let mut w = env.ring.write().expect("ring lock");
+        apply(&mut w, (true, x));
+        drop(w);
+        env.changed = true;
+        return;
+    }
     if op.1 >= FORGET {
         let x = op.1 - FORGET;
         env.router.remove_peer(ReplicaId::new(x));
@@ -879,6 +902,17 @@ fn stage_route(c: Cfg, mask: u32, universe: u64, keys: &[String], small: usize, 
             }
             let mut env = build_env("new", &mem, c, sender);
             env_change(&mut env, op);
+            run_batches(&mut env, &mem, &[op], &bs_dyn, &mut acc, &mut tsets);
+        }
+        // address book ahead of the ring: the routers were built knowing the address of a node that joins the ring later
+        for x in 1..=universe {
+            if x == sender || mask & (1 << (x - 1)) != 0 {
+                continue;
+            }
+            let op: Op = (true, KNOWN + x);
+            let mut env = build_env("new", &mem, c, sender);
+            env_change(&mut env, op);
+            acc.count("address_known_before_join_routers", 1);
             run_batches(&mut env, &mem, &[op], &bs_dyn, &mut acc, &mut tsets);
         }
         // address book lagging behind the ring: the router no longer knows one member's address
